@@ -127,6 +127,10 @@ func StringValueFromCodeField(message proto.Message) (string, bool) {
 		if field.Kind() == protoreflect.EnumKind {
 			enum := reflect.Get(field).Enum()
 			value := field.Enum().Values().ByNumber(enum)
+			if value == nil {
+				// a number the enum does not define has no code
+				return "", false
+			}
 			// Codes that are not the kebab-case of the enum name (">=", "Patient",
 			// "4.0.1") are recorded on the enum value.
 			if orig, ok := proto.GetExtension(value.Options(), apb.E_FhirOriginalCode).(string); ok && orig != "" {
